@@ -114,7 +114,6 @@ func c07Check(st internal.VerifTlfuState[int, int], live map[uintptr]*c07Ent, ca
 	return "", ""
 }
 
-
 // c07Reorder: the store applies cost changes as deltas computed under the shard
 // lock but sent afterwards, so two Sets of one key can reach the policy in the
 // reverse order (the code says "different order still works"). Between the
@@ -164,7 +163,9 @@ func c07Reorder(r *Run, variant int) {
 	under := int64(1 + rng.Intn(6)) // how far below zero the weight goes
 	step := float32(2 + rng.Intn(6))
 	script := []string{fmt.Sprintf("capacity %d filled with entries of weight %d", capacity, w)}
-	wit := func() map[string]any { return map[string]any{"variant": variant, "capacity": capacity, "script": script} }
+	wit := func() map[string]any {
+		return map[string]any{"variant": variant, "capacity": capacity, "script": script}
+	}
 	// every step runs under a termination watchdog (two dumps apart, still inside the policy)
 	run := func(desc string, f func()) bool {
 		script = append(script, desc)
@@ -201,7 +202,7 @@ func c07Reorder(r *Run, variant int) {
 		<-done
 		return true
 	}
-	ok := run(fmt.Sprintf("late Set's delta first: cost of key %d changes by %d (weight %d -> %d)", tail.Key, -(w + under), w, -under), func() { v.UpdateCost(target, -(w + under)) })
+	ok := run(fmt.Sprintf("late Set's delta first: cost of key %d changes by %d (weight %d -> %d)", tail.Key, -(w+under), w, -under), func() { v.UpdateCost(target, -(w + under)) })
 	drop()
 	ok = ok && run(fmt.Sprintf("climb that grows the window by %v while that weight is negative", step), func() {
 		v.SetHr(0)
